@@ -17,6 +17,7 @@ import (
 	"runtime/pprof"
 	"strings"
 	"sync"
+	"sync/atomic"
 	"time"
 
 	"github.com/database64128/shadowsocks-go/conn"
@@ -96,8 +97,18 @@ func Load(cfgJSON []byte, level zapcore.Level) (*service.Manager, *observer.Obse
 	return m, logs, err
 }
 
+// ClockPoisoned is set once a configuration that makes the service call signal.Notify (credential stores,
+// TLS certificates: reload on SIGUSR1) has been started in this process. os/signal parks an M in a blocking
+// wait for the rest of the process lifetime; the runtime then never considers the process idle, so the fake
+// clock can no longer be advanced (vtime.Advance would hang). Parts that need Advance must not start such
+// configurations; Stop skips its virtual-time phase when this is set.
+var ClockPoisoned atomic.Bool
+
 // Start loads and runs the configuration.
 func Start(cfgJSON []byte) (*Instance, error) {
+	if bytes.Contains(cfgJSON, []byte("uPSKStorePath")) || bytes.Contains(cfgJSON, []byte("\"certs\"")) {
+		ClockPoisoned.Store(true)
+	}
 	m, logs, err := Load(cfgJSON, zapcore.InfoLevel)
 	if err != nil {
 		return nil, err
@@ -170,7 +181,7 @@ func (in *Instance) Stop(realWatchdog time.Duration) StopResult {
 			return false
 		}
 	})
-	if !ok && vtime.Virtual {
+	if !ok && vtime.Virtual && !ClockPoisoned.Load() {
 		// phase 2: let virtual time run (up to 1 h) so that a Stop bound to a timer can finish and be measured
 		fin := make(chan struct{})
 		go func() {
